@@ -208,7 +208,7 @@ def run(ck):
     files = {'tables.json': json.dumps({'mdl': [Element.from_atomic_number(z)().mdl_isotope for z in range(1, 119)]})}
     corp = chy.corpus()
     sel = chy.pick(corp, 150 if ck.quick else 2000, ck.seed)
-    special = ['F/C=C/F', 'C/C=C=C=C/C', 'FC(Cl)=[C@]=C(Br)I', 'C[C@H](N)O', '[Na+].[Cl-]', 'c1ccccc1', 'c1cc[nH]c1', 'C[CH2]', '[13CH4]', '[2H]O[2H]', 'C~C'.replace('~', '-'),
+    special = ['F/C=C/F', 'C/C=C=C=C/C', 'FC(Cl)=[C@]=C(Br)I', 'FC(Cl)=[C@@]=C(Br)I', 'CC=[C@]=CC', 'CC=[C@@]=CC', 'CC(F)=[C@]=C(C)CC', 'CC(F)=[C@@]=C(C)CC', 'C/C=C=C=C\\C', 'C[C@H](N)O', '[Na+].[Cl-]', 'c1ccccc1', 'c1cc[nH]c1', 'C[CH2]', '[13CH4]', '[2H]O[2H]', 'C~C'.replace('~', '-'),
                'C[Fe](C)(C)(C)(C)C', 'O=S(=O)(O)O', '[Fe+3]', '[O-2]', '[Ti+4]', '[C-4]'.replace('[C-4]', '[Si-4]')]
     cases = [{'key': f'{s}|{f}|{d}', 'smi': s, 'form': f, 'decorate': d, 'rs': rnd.randrange(1 << 30)}
              for s in sel + special for f, d in (('kekule', 0), ('thiele', 1), ('asis', 1))]
